@@ -52,6 +52,28 @@ Theorem C22_exempt : forall (block_private block_global : bool) (m : proxy_mode)
 Proof. exact exempt. Qed.
 Print Assumptions C22_exempt.
 
+(* HISTORIES: one Block instance serves any sequence of connections (any peers, any proxy modes, local
+   included, options changing in between).  The verdict on each connection is the per-connection
+   decision for the options current at that moment -- nothing is remembered from earlier connections
+   (the translator fails closed on any instance or module state, see stateless_class). *)
+Theorem C22_history_stateless : forall (st : addon_state) (h : list conn),
+  run_history st h = map (fun c => client_connected (c_bp c) (c_bg c) (c_mode c) (c_addr c)) h.
+Proof. exact history_stateless. Qed.
+Print Assumptions C22_history_stateless.
+
+(* ... hence C22_partial and C22_exempt hold for every connection of every history *)
+Theorem C22_history_partial : forall (st : addon_state) (h : list conn),
+  Forall2 (fun c e => ip_wf (c_addr c) = true -> in_diff (c_addr c) = false ->
+                      is_some e = spec_refused (c_bp c) (c_bg c) (spec_local (c_mode c)) (c_addr c))
+          h (run_history st h).
+Proof. exact history_partial. Qed.
+Print Assumptions C22_history_partial.
+
+Theorem C22_history_exempt : forall (st : addon_state) (h : list conn),
+  Forall2 (fun c e => spec_loopback (c_addr c) = true \/ c_mode c = LocalMode -> e = None) h (run_history st h).
+Proof. exact history_exempt. Qed.
+Print Assumptions C22_history_exempt.
+
 (* A refused connection is closed right after the hook; no Start event, no connection handler. *)
 Theorem C22_refused_before_processing : forall bp bg m a,
   refused bp bg m a = true ->
